@@ -354,6 +354,11 @@ func runC09(c *eng.Ctx) {
 	}
 	ruleCleanSwap(c)
 	c.Floor(10)
+	// the limits that the cleaner enforces are the ones the stream was created with
+	c.Rule("R16.8", "K6")
+	ruleStreamConfigPlumbing(c, "RetentionMaxAge", "RetentionMaxBytes", "RetentionMaxMessages", "CleanerInterval", "SegmentMaxBytes", "SegmentMaxAge")
+	ruleRetentionOptionsReachCleaner(c)
+	c.Floor(22)
 }
 
 // allCmpExact counts the If conditions in fn that compare a with b and reports whether every one of them uses exactly rel
